@@ -306,6 +306,91 @@ def structural_inventories(repo):
     return out
 
 
+_ENV_MUTATORS = ('pop', 'popitem', 'update', 'setdefault', 'clear', '__setitem__', '__delitem__')
+
+
+def structural_helper_environment(repo):
+    """host environment variables: the helper inherits the caller-configured variables unchanged (None = inherit), jedi
+    adds nothing of its own (no PYTHONPATH from the host's sys.path or the project) and never writes to or aliases
+    os.environ - decided on the AST of all of jedi/"""
+    bad_assign, bad_kw, bad_environ, popen_env, alias_environ = [], [], [], [], []
+    for rel, path in inv.py_files(repo):
+        try:
+            t = inv.parse(path)
+        except SyntaxError:
+            continue
+        parents = {}
+        for n in ast.walk(t):
+            for ch in ast.iter_child_nodes(n):
+                parents[ch] = n
+        for n in ast.walk(t):
+            if isinstance(n, (ast.Assign, ast.AugAssign, ast.AnnAssign)):
+                tg = n.targets if isinstance(n, ast.Assign) else [n.target]
+                for x in tg:
+                    if isinstance(x, ast.Attribute) and x.attr == '_env_vars':
+                        rhs = ast.unparse(n.value) if n.value is not None else ''
+                        if rhs not in ('env_vars', 'None') or isinstance(n, ast.AugAssign):
+                            bad_assign.append('%s:%d %s' % (rel, n.lineno, ast.unparse(n)[:90]))
+            if isinstance(n, ast.Call):
+                for k in n.keywords:
+                    if k.arg == 'env_vars' and ast.unparse(k.value) not in ('env_vars', 'self._env_vars'):
+                        bad_kw.append('%s:%d %s' % (rel, n.lineno, ast.unparse(k.value)[:60]))
+                    if k.arg == 'env' and 'Popen' in ast.unparse(n.func):
+                        popen_env.append((rel, ast.unparse(k.value)))
+            if isinstance(n, ast.Attribute) and n.attr == 'environ' and ast.unparse(n.value) == 'os':
+                par = parents.get(n)
+                gp = parents.get(par)
+                where = '%s:%d %s' % (rel, n.lineno, ast.unparse(par if par is not None else n)[:90])
+                if isinstance(par, ast.Attribute) and isinstance(gp, ast.Call) and gp.func is par:
+                    if par.attr in _ENV_MUTATORS:
+                        bad_environ.append(where)            # os.environ.pop(...) etc.
+                    continue                                  # .get / .copy / .items ...: reads
+                if isinstance(par, ast.Subscript) and par.value is n:
+                    if not isinstance(par.ctx, ast.Load):
+                        bad_environ.append(where)            # os.environ[k] = v / del os.environ[k]
+                    continue
+                if isinstance(par, ast.Compare):
+                    continue
+                if isinstance(par, ast.Call) and isinstance(par.func, ast.Name) and par.func.id in ('dict', 'sorted', 'list', 'len') \
+                        and par.args and par.args[0] is n:
+                    continue                                  # a copy
+                # anything else lets the mapping itself escape (alias): follow the name inside the same function
+                fn = par
+                while fn is not None and not isinstance(fn, (ast.FunctionDef, ast.AsyncFunctionDef, ast.Module)):
+                    fn = parents.get(fn)
+                stmt = par
+                while stmt is not None and not isinstance(stmt, ast.stmt):
+                    stmt = parents.get(stmt)
+                names = [x.id for x in getattr(stmt, 'targets', []) if isinstance(x, ast.Name)] \
+                    if isinstance(stmt, ast.Assign) else []
+                mutated = False
+                for m in ast.walk(fn) if fn is not None else []:
+                    if isinstance(m, ast.Call) and isinstance(m.func, ast.Attribute) and isinstance(m.func.value, ast.Name) \
+                            and m.func.value.id in names and m.func.attr in _ENV_MUTATORS:
+                        mutated = True
+                    if isinstance(m, ast.Subscript) and isinstance(m.value, ast.Name) and m.value.id in names \
+                            and not isinstance(m.ctx, ast.Load):
+                        mutated = True
+                (bad_environ if mutated else alias_environ).append(where)
+    ok_popen = popen_env == [('jedi/inference/compiled/subprocess/__init__.py', 'self._env_vars')]
+    out = [
+        {'id': 'helper-env:vars-unchanged', 'kind': 'effect', 'ok': not bad_assign and not bad_kw,
+         'definite': bool(bad_assign or bad_kw),
+         'label': 'the environment variables of the helper are exactly what the caller configured (env_vars parameter, '
+                  'None = inherit): jedi computes none of its own (e.g. a PYTHONPATH that would put host or project '
+                  'directories on the helper\'s start-up path)', 'detail': repr(bad_assign + bad_kw)},
+        {'id': 'helper-env:popen', 'kind': 'effect', 'ok': ok_popen if popen_env else None,
+         'definite': bool(popen_env) and not ok_popen,
+         'label': 'the only Popen with an env argument passes self._env_vars itself', 'detail': repr(popen_env)},
+        {'id': 'helper-env:os.environ-read-only', 'kind': 'frame',
+         'ok': False if bad_environ else (None if alias_environ else True), 'definite': bool(bad_environ),
+         'label': 'os.environ is only read (get / item lookup / copies): it is never written to, deleted from, or changed '
+                  'through a local alias (an alias that is not followed further leaves this undecided)',
+         'detail': repr(bad_environ + alias_environ)},
+    ]
+    return out
+
+
 def _standin(repo, seed, tier):
     from pyvc.standin import run_standin
     return run_standin('C12', tier, seed, repo)
@@ -313,7 +398,7 @@ def _standin(repo, seed, tier):
 
 _standin.tiers = ('quick', 'thorough')
 BOUNDED = [_standin]
-STRUCTURAL = [structural_inventories]
+STRUCTURAL = [structural_inventories, structural_helper_environment]
 NOT_DECIDED = ['what the target interpreter does at start-up (site, .pth in its own site-packages)',
                'third-party meta-path finders executing code in find_spec',
                'getattr_paths.__import__(return_obj.__module__): name of an already live object in the helper (assumed '
